@@ -1,11 +1,13 @@
 /-
 Line-protocol driver for C05.
-request : trace <H|N|S> <nfiles> <layer>,<layer>,…
+request : trace <H|N|S> <nfiles> [c<k>|-] <layer>,<layer>,…
           layer = E (history entry with EmptyLayer)  |  L/<op>/<op>…  (one op per file)
           op    = k (file untouched) | d (whiteout) | w<digits> (file rewritten with these packages, in this order)
+                | s<digits> (location replaced by a symlink to a list with these packages)
+          c<k>  = the context is cancelled once the trace has made k re-extractions (k ≥ 1); - or absent = never
           history mode: H = one history entry per layer (CreatedBy "cmd<i>"), N = no history, S = last entry dropped
 reply   : n=<chain layers> pk=<tok>,<tok>…  spec=<tok>,…      (sorted; "-" when empty)
-          pk   tok = f<file>p<pkg>@<index>:<v1 layer ordinal | e>:<hex command | ->
+          pk   tok = f<file>p<pkg>@<index>:<v1 layer ordinal | e>:<hex command | ->   or f<file>p<pkg>@nil (no LayerDetails)
           spec tok = f<file>p<pkg>@<least L with the package in every view L..last>
           or `loaderr` when the history cannot be aligned, `scanerr` when there is no chain layer at all
 -/
@@ -19,6 +21,7 @@ def parseOp (s : String) : Option Op :=
   else if s = "d" then some .delete
   else match s.toList with
     | 'w' :: ds => (ds.mapM fun (c : Char) => if c.isDigit then some (c.toNat - 48) else none).map Op.write
+    | 's' :: ds => (ds.mapM fun (c : Char) => if c.isDigit then some (c.toNat - 48) else none).map Op.link
     | _ => none
 
 /-- a layer: none = empty history entry, some ops = one op per file -/
@@ -30,11 +33,19 @@ def parseLayer (nf : Nat) (s : String) : Option (Option (List Op)) :=
 
 def sortStr (xs : List String) : List String := isort (fun a b => decide (a < b)) xs
 
-def handle (line : String) : String :=
-  match line.splitOn " " with
-  | ["trace", mode, nf, ls] =>
-    match nf.toNat?, (if mode = "H" || mode = "N" || mode = "S" then some mode else none) with
-    | some nf, some mode =>
+/-- `sortResults` orders the inventory by name, then by location; the harness' files are
+0 = var/lib/a/pkgs.list, 1 = opt/pkgs.list, 2 = pkgs.list, so by path: 1 < 2 < 0 -/
+def fileRank (f : Nat) : Nat := if f = 0 then 2 else if f = 1 then 0 else 1
+
+def pkgLt (a b : Nat × Pkg) : Bool := a.2 < b.2 || (a.2 = b.2 && fileRank a.1 < fileRank b.1)
+
+def parseCancel (s : String) : Option (Option Nat) :=
+  if s = "-" then some none
+  else match s.toList with
+    | 'c' :: ds => (String.ofList ds).toNat?.map some
+    | _ => none
+
+def run (mode : String) (nf : Nat) (cancelAt : Option Nat) (ls : String) : String :=
       match (listOf ls ",").mapM (parseLayer nf) with
       | none => "bad-op"
       | some layers =>
@@ -48,19 +59,33 @@ def handle (line : String) : String :=
           let n := cms.length
           if n = 0 then "scanerr" else     -- ScanContainer: "no chain layers found"
           let img : Nat → History := fun f => chainHistory cms (v1.map fun ops => ops.getD f .keep)
-          let pkgs : List (Nat × Pkg) := (List.range nf).flatMap fun f =>
-            ((viewAt (img f) (n - 1)).getD []).map fun p => (f, p)
-          let origins := populate img (fun _ => false) pkgs Cache.empty
+          let pkgs : List (Nat × Pkg) := isort pkgLt ((List.range nf).flatMap fun f =>
+            ((viewAt (img f) (n - 1)).getD []).map fun p => (f, p))
+          let origins := populate img cancelAt pkgs St.empty
           let toks := (pkgs.zip origins).map fun ((f, p), o) =>
-            match details cms o with
-            | some (i, l, c) =>
-              s!"f{f}p{p}@{i}:{match l with | some k => toString k | none => "e"}:{if c = "" then "-" else hexOfStr c}"
-            | none => s!"f{f}p{p}@?"
+            match o with
+            | none => s!"f{f}p{p}@nil"
+            | some o =>
+              match details cms o with
+              | some (i, l, c) =>
+                s!"f{f}p{p}@{i}:{match l with | some k => toString k | none => "e"}:{if c = "" then "-" else hexOfStr c}"
+              | none => s!"f{f}p{p}@?"
           let spec := pkgs.map fun (f, p) =>
             match originSpec (img f) p with
             | some L => s!"f{f}p{p}@{L}"
             | none => s!"f{f}p{p}@none"
           s!"n={n} pk={joinWith "," (sortStr toks)} spec={joinWith "," (sortStr spec)}"
+
+def handle (line : String) : String :=
+  let okMode (m : String) := m = "H" || m = "N" || m = "S"
+  match line.splitOn " " with
+  | ["trace", mode, nf, ls] =>
+    match nf.toNat? with
+    | some nf => if okMode mode then run mode nf none ls else "bad-op"
+    | none => "bad-op"
+  | ["trace", mode, nf, c, ls] =>
+    match nf.toNat?, parseCancel c with
+    | some nf, some cancelAt => if okMode mode then run mode nf cancelAt ls else "bad-op"
     | _, _ => "bad-op"
   | _ => "bad-op"
 
